@@ -788,8 +788,24 @@ def bswap(a):
 _COMM = {'fadd', 'fmul', 'add', 'mul', 'minnum', 'maxnum', 'smin', 'smax', 'umin', 'umax'}
 
 
+def _zext_src(t):
+    """x if t is a zero extension {x, 0...0} of a narrower non-constant x, else None"""
+    if t.op == 'concat' and len(t.args) == 2 and t.args[1].op == 'const' and t.args[1].args[0] == 0 and t.args[0].op != 'const':
+        return t.args[0]
+    return None
+
+
 def arith(op, *args, w=None):
     w = w if w is not None else args[0].w
+    if op in ('udiv', 'urem') and len(args) == 2:
+        # a quotient / remainder of two zero-extended operands fits their own width: one canonical form whatever width the compiler divided in
+        a0, b0 = _zext_src(args[0]), _zext_src(args[1])
+        if a0 is not None and b0 is not None and a0.w == b0.w:
+            return zext(mk(op, (a0, b0), a0.w), w)
+    if op in ('sdiv', 'srem') and len(args) == 2 and args[0].op == 'sext' and args[1].op == 'sext' and args[0].args[0].w == args[1].args[0].w and w > 2 * args[0].args[0].w:
+        # signed: the quotient of two w0-bit values needs w0 + 1 bits (-2^(w0-1) / -1); canonical width 2 w0, sign-extended to the width asked for
+        a0, b0 = args[0].args[0], args[1].args[0]
+        return sext(mk(op, (sext(a0, 2 * a0.w), sext(b0, 2 * a0.w)), 2 * a0.w), w)
     if op in _COMM and args[1].id < args[0].id:
         args = (args[1], args[0])
     if op in ('add', 'sub', 'mul') and all(a.op == 'const' for a in args):
@@ -1032,6 +1048,25 @@ def make(op, args, w):
                 return const(w, v >> k)
             sv = v - (1 << w) if (v >> (w - 1)) & 1 else v
             return const(w, (sv >> k) & ((1 << w) - 1))
+    if op in ('cttz', 'ctlz') and isinstance(args[0], T):
+        # count of trailing / leading zeros decided by the known bits: scanning from the counted end, constant zero parts add their width, the first constant part
+        # with a set bit ends the count; a symbolic part before that leaves it undecided
+        a0 = args[0]
+        ps = list(a0.args) if a0.op == 'concat' else [a0]
+        if op == 'ctlz':
+            ps = ps[::-1]
+        n = 0
+        for p_ in ps:
+            if p_.op != 'const':
+                break
+            v = p_.args[0]
+            if v == 0:
+                n += p_.w
+                continue
+            n += ((v & -v).bit_length() - 1) if op == 'cttz' else (p_.w - v.bit_length())
+            return const(w, n)
+        else:
+            return const(w, a0.w) if not args[1] else mk(op, args, w)       # all zero: the width unless the result is declared undefined for 0
     if op == 'overflow' and args[1].op == 'const' and args[2].op == 'const':
         kind, ww = args[0], args[1].w
         x, y = args[1].args[0], args[2].args[0]
